@@ -222,15 +222,45 @@ func prefixedForwarding(c *an.Ctx, rule string) {
 		return
 	}
 	param := w.Params[1]
+	// the scanner and the loop that drives it: in Write itself or in a helper of the package that Write calls
+	// from its loop (a cursor type, an extracted step)
+	inScope := map[*ssa.Function]bool{}
+	for f := range p.Reach([]*ssa.Function{w}, func(e an.CallEdge) bool { return e.Kind == an.EdgeCall && an.Outer(e.Callee).Pkg == w.Pkg }) {
+		inScope[f] = true
+	}
 	var scan *ssa.Call
-	for _, ci := range an.CallsIn(w, "bufio.ScanLines") {
-		scan, _ = ci.(*ssa.Call)
+	for f := range inScope {
+		for _, ci := range an.CallsIn(f, "bufio.ScanLines") {
+			scan, _ = ci.(*ssa.Call)
+		}
 	}
 	if scan == nil {
 		c.Und(rule, an.Short(w)+":scanner", w.Pos(), "the prefixed Write does not split its input with bufio.ScanLines: line forwarding cannot be established by this rule")
 		return
 	}
-	loop := an.InnermostLoop(an.Loops(w), scan.Block())
+	var site ssa.Instruction = scan
+	if scan.Parent() != w {
+		site = nil
+		an.EachInstr(w, func(in ssa.Instruction) {
+			call, ok := in.(*ssa.Call)
+			if !ok || site != nil {
+				return
+			}
+			for _, callee := range p.Callees(&call.Call) {
+				if !inScope[callee] {
+					continue
+				}
+				if _, ok := p.Reach([]*ssa.Function{callee}, func(e an.CallEdge) bool { return inScope[e.Callee] })[scan.Parent()]; ok {
+					site = call
+				}
+			}
+		})
+	}
+	if site == nil {
+		c.Und(rule, an.Short(w)+":scanner", w.Pos(), "the call chain from Write to the scanner was not found")
+		return
+	}
+	loop := an.InnermostLoop(an.Loops(w), site.Block())
 	if loop == nil {
 		c.Und(rule, an.Short(w)+":loop", scan.Pos(), "ScanLines is not called in a loop")
 		return
@@ -246,24 +276,82 @@ func prefixedForwarding(c *an.Ctx, rule string) {
 		}
 		return false
 	}
-	// the scanned input is the loop-carried remainder of p
+	// the scanned input is the remainder of p, carried from one iteration to the next either in a loop
+	// variable (φ) or in a field of a local cursor object
 	var rem *ssa.Phi
-	if phi, ok := scan.Call.Args[0].(*ssa.Phi); ok && phi.Block() == loop.Header {
-		rem = phi
+	var remField string                   // type-qualified field holding the remainder
+	var remObj *ssa.Alloc                 // the cursor object, a local of Write
+	isRemLoad := func(v ssa.Value) bool { // a load of the cursor's remainder field
+		u, ok := v.(*ssa.UnOp)
+		if !ok || u.Op != token.MUL {
+			return false
+		}
+		fa, ok := u.X.(*ssa.FieldAddr)
+		if !ok || an.TypeField(fa) != remField {
+			return false
+		}
+		for _, src := range p.DeepSources(fa.X, 3, true) {
+			if src != ssa.Value(remObj) {
+				return false
+			}
+		}
+		return true
 	}
-	if rem == nil {
+	if phi, ok := scan.Call.Args[0].(*ssa.Phi); ok && scan.Parent() == w && phi.Block() == loop.Header {
+		rem = phi
+	} else if u, ok := scan.Call.Args[0].(*ssa.UnOp); ok && u.Op == token.MUL {
+		if fa, ok := u.X.(*ssa.FieldAddr); ok {
+			srcs := p.DeepSources(fa.X, 3, true)
+			if len(srcs) == 1 {
+				if a, ok := srcs[0].(*ssa.Alloc); ok && a.Parent() == w {
+					remField, remObj = an.TypeField(fa), a
+				}
+			}
+		}
+	}
+	switch {
+	case rem != nil:
+		for i, pred := range loop.Header.Preds {
+			e := rem.Edges[i]
+			if !loop.Blocks[pred] {
+				c.Check(an.SameValue(e, param), rule, an.Short(w)+":remainder-initial", rem.Pos(), "scanning starts with the whole argument", "scanning does not start with the whole argument")
+				continue
+			}
+			sl, ok := e.(*ssa.Slice)
+			good := ok && sl.X == ssa.Value(rem) && sl.High == nil && sl.Low != nil && isOneOf(sl.Low, adv)
+			c.Check(good, rule, an.Short(w)+":advance", rem.Pos(), "the input advances by exactly what the scanner consumed", "after a line the input does not advance by the scanner's advance: "+an.Prov(e))
+		}
+	case remObj != nil:
+		// every store to the cursor's field: the one before the loop puts the whole argument there, the others
+		// advance it by exactly what the scanner consumed
+		nInit, nAdv, bad := 0, 0, ""
+		for f := range inScope {
+			an.EachInstr(f, func(in ssa.Instruction) {
+				st, ok := in.(*ssa.Store)
+				if !ok {
+					return
+				}
+				fa, ok := st.Addr.(*ssa.FieldAddr)
+				if !ok || an.TypeField(fa) != remField {
+					return
+				}
+				if f == w && !loop.Blocks[st.Block()] && an.Dominates(st, loop.Header.Instrs[0]) && an.SameValue(st.Val, param) {
+					nInit++
+					return
+				}
+				sl, isSl := st.Val.(*ssa.Slice)
+				if isSl && isRemLoad(sl.X) && sl.High == nil && sl.Low != nil && isOneOf(sl.Low, adv) && an.Dominates(scan, st) {
+					nAdv++
+					return
+				}
+				bad = an.Prov(st.Val)
+			})
+		}
+		c.Check(nInit == 1 && bad == "", rule, an.Short(w)+":remainder-initial", remObj.Pos(), "scanning starts with the whole argument", "the cursor does not start with the whole argument")
+		c.Check(nAdv >= 1 && bad == "", rule, an.Short(w)+":advance", scan.Pos(), "the input advances by exactly what the scanner consumed", "after a line the input does not advance by the scanner's advance: "+bad)
+	default:
 		c.Bad(rule, an.Short(w)+":remainder", scan.Pos(), "the scanner is not applied to the loop-carried remainder of the input: %s", an.Prov(scan.Call.Args[0]))
 		return
-	}
-	for i, pred := range loop.Header.Preds {
-		e := rem.Edges[i]
-		if !loop.Blocks[pred] {
-			c.Check(an.SameValue(e, param), rule, an.Short(w)+":remainder-initial", rem.Pos(), "scanning starts with the whole argument", "scanning does not start with the whole argument")
-			continue
-		}
-		sl, ok := e.(*ssa.Slice)
-		good := ok && sl.X == ssa.Value(rem) && sl.High == nil && sl.Low != nil && isOneOf(sl.Low, adv)
-		c.Check(good, rule, an.Short(w)+":advance", rem.Pos(), "the input advances by exactly what the scanner consumed", "after a line the input does not advance by the scanner's advance: "+an.Prov(e))
 	}
 	// per iteration: advance ≠ 0, no error → write(line) before going round
 	// (helpers of pkg/output such as an extracted emitLine are inlined; the line is followed into them by identity)
@@ -309,11 +397,21 @@ func prefixedForwarding(c *an.Ctx, rule string) {
 			if isOneOf(call.Call.Args[1], line) || isOneOf(st.Root(call.Call.Args[1]), line) {
 				return "write(line)"
 			}
+			for _, src := range an.Sources(st.Root(call.Call.Args[1])) {
+				if isOneOf(st.Root(src), line) {
+					return "write(line)"
+				}
+			}
 			return "write(" + an.Prov(call.Call.Args[1]) + ")"
 		}
 		return ""
 	}
-	outs := ex.RunFrom(w, scan, nil)
+	var outs []an.Outcome
+	if scan.Parent() == w {
+		outs = ex.RunFrom(w, scan, nil)
+	} else {
+		outs = ex.Run(w, loop.BodyEntry(), loop.Header, nil)
+	}
 	good := len(outs) > 0
 	for _, o := range outs {
 		if o.End == "stop" && o.StopBlock == loop.Header {
@@ -334,7 +432,10 @@ func prefixedForwarding(c *an.Ctx, rule string) {
 	for _, ci := range an.CallsIn(w, "(*bufio.Writer).Write") {
 		if !loop.Blocks[ci.Block()] && isBuf(ci.Common().Args[0]) {
 			for _, src := range an.Sources(ci.Common().Args[1]) {
-				if src == ssa.Value(rem) || src == ssa.Value(param) {
+				if (rem != nil && src == ssa.Value(rem)) || src == ssa.Value(param) {
+					tailOK = true
+				}
+				if remObj != nil && isRemLoad(src) {
 					tailOK = true
 				}
 			}
@@ -383,13 +484,16 @@ func finishWithoutStart(c *an.Ctx, rule string) {
 			}
 		}
 		got := map[string]bool{}
-		an.EachInstr(nto, func(in ssa.Instruction) {
-			if bo, ok := in.(*ssa.BinOp); ok && bo.Op == token.EQL {
-				if s, ok := an.ConstString(bo.Y); ok {
-					got[s] = true
+		// (the dispatch may live in a helper of the package that NewTaskOutput calls)
+		for f := range p.Reach([]*ssa.Function{nto}, func(e an.CallEdge) bool { return e.Kind == an.EdgeCall && an.Outer(e.Callee).Pkg == nto.Pkg }) {
+			an.EachInstr(f, func(in ssa.Instruction) {
+				if bo, ok := in.(*ssa.BinOp); ok && bo.Op == token.EQL {
+					if s, ok := an.ConstString(bo.Y); ok {
+						got[s] = true
+					}
 				}
-			}
-		})
+			})
+		}
 		var missing []string
 		for w := range want {
 			if !got[w] {
